@@ -14,6 +14,7 @@ import (
 	"strings"
 
 	"github.com/mazrean/kessoku/internal/pkg/collection"
+	"golang.org/x/tools/go/types/typeutil"
 )
 
 const (
@@ -339,6 +340,18 @@ func NewGraph(metaData *MetaData, build *BuildDirective, varPool *VarPool) (*Gra
 		returnIndex int
 	}
 
+	// Types are looked up by identity, not by spelling: an alias and the type it stands for are the
+	// same type and share one key (the spelling seen first).
+	var canonical typeutil.Map
+	typeKey := func(t types.Type) string {
+		if key, ok := canonical.At(t).(string); ok {
+			return key
+		}
+		key := t.String()
+		canonical.Set(t, key)
+		return key
+	}
+
 	fnProviderMap := make(map[string]*fnProvider)
 	declOrder := 0
 
@@ -359,7 +372,7 @@ func NewGraph(metaData *MetaData, build *BuildDirective, varPool *VarPool) (*Gra
 				if t == nil {
 					return nil, fmt.Errorf("provider has nil type at group %d, index %d", groupIndex, typeIndex)
 				}
-				key := t.String()
+				key := typeKey(t)
 
 				if existing, ok := fnProviderMap[key]; ok {
 					// Allow the same provider to provide multiple types (e.g., concrete and interface)
@@ -387,7 +400,7 @@ func NewGraph(metaData *MetaData, build *BuildDirective, varPool *VarPool) (*Gra
 		}
 
 		// Find the provider that provides this struct type
-		structTypeKey := structProvider.StructType.String()
+		structTypeKey := typeKey(structProvider.StructType)
 		if _, ok := fnProviderMap[structTypeKey]; !ok {
 			return nil, fmt.Errorf("no provider for struct type %s", structTypeKey)
 		}
@@ -404,7 +417,7 @@ func NewGraph(metaData *MetaData, build *BuildDirective, varPool *VarPool) (*Gra
 			}
 			declOrder++
 
-			fieldTypeKey := field.Type.String()
+			fieldTypeKey := typeKey(field.Type)
 			if _, ok := fnProviderMap[fieldTypeKey]; ok {
 				return nil, fmt.Errorf("multiple providers provide %s (field %s conflicts with existing provider)", fieldTypeKey, field.Name)
 			}
@@ -421,7 +434,7 @@ func NewGraph(metaData *MetaData, build *BuildDirective, varPool *VarPool) (*Gra
 	if build.Return.Type == nil {
 		return nil, fmt.Errorf("return type is nil")
 	}
-	returnTypeKey := build.Return.Type.String()
+	returnTypeKey := typeKey(build.Return.Type)
 
 	returnProvider, ok := fnProviderMap[returnTypeKey]
 	if !ok {
@@ -469,7 +482,7 @@ func NewGraph(metaData *MetaData, build *BuildDirective, varPool *VarPool) (*Gra
 			if t == nil {
 				return nil, fmt.Errorf("provider has nil required type at index %d", i)
 			}
-			key := t.String()
+			key := typeKey(t)
 			var (
 				n2       *node
 				srcIndex int
